@@ -5,6 +5,8 @@ Everything the C16 theorems lean on is read from the AST here:
   * Timer.__exit__        the clamp `max(default_timer() - self._start, 0)`: function name, operand order, literal;
                           when the callback runs; whether a truthy value is returned
   * Timer.__call__        `with self._new_timer():` (fresh Timer per decorated call) vs `with self:`
+  * Timer.labels          `self._metric = self._metric.labels(*args, **kw)`: assignment target, delegation, which of `*args` /
+                          `**kw` are forwarded, no return value; `_new_timer` copies the current `_metric`; `__enter__` returns self
   * InprogressTracker     `self._gauge.inc()` / `self._gauge.dec()` as unconditional statements (or under which test)
   * ExceptionCounter      the test `isinstance(value, self._exception)`, what `__exit__` returns on either path
   * metrics.py            callback names given to Timer, default class of count_exceptions
@@ -38,6 +40,8 @@ DEFAULTS = dict(
     reservedNames=[], lambdaName='', lambdaRename='', kwonlySigFmt='', kwonlyShortFmt='', bodyTemplate='',
     defTemplate='', sigJoin='', posonlyMarkerEmitted=False, callerFuncParam='', callerFuncPosOnly=False,
     makerReadsDunderName=False, makerRefusesNonFunctions=False,
+    timerLabelsRebindsSelf=False, timerLabelsForwardsArgs=False, timerLabelsForwardsKw=False, timerLabelsReturnsNone=False,
+    newTimerCopiesMetric=False, timerEnterReturnsSelf=False, timerInitStoresMetric=False,
 )
 
 
@@ -75,6 +79,9 @@ def _emit(v, fails):
     out += 'def makerRefusesNonFunctions : Bool := %s\n' % b(v['makerRefusesNonFunctions'])
     out += 'def callerFuncParam : List Char := %s\n' % chars(v['callerFuncParam'])
     out += 'def callerFuncPosOnly : Bool := %s\n' % b(v['callerFuncPosOnly'])
+    for k in ('timerLabelsRebindsSelf', 'timerLabelsForwardsArgs', 'timerLabelsForwardsKw', 'timerLabelsReturnsNone',
+              'newTimerCopiesMetric', 'timerEnterReturnsSelf', 'timerInitStoresMetric'):
+        out += 'def %s : Bool := %s\n' % (k, b(v[k]))
     return out + footer(TARGET)
 
 
@@ -244,6 +251,75 @@ def timer(tree, v):
     if item == 'self._new_timer()': v['timerCallFresh'] = True
     elif item == 'self': v['timerCallFresh'] = False
     else: raise Fail('Timer.__call__ enters %s' % item)
+
+
+def _no_doc(f):
+    return [x for x in f.body if not (isinstance(x, ast.Expr) and isinstance(x.value, ast.Constant))]
+
+
+def timer_labels(tree, v):
+    """Timer.labels: `def labels(self, *args, **kw): self._metric = self._metric.labels(*args, **kw)` — one assignment whose
+    target is `self._metric` and whose value delegates to `self._metric.labels`, forwarding `*args` / `**kw` (which of the
+    two are forwarded is a flag); no return value.  Timer.__init__ stores `metric` in `self._metric`; `_new_timer` builds
+    the new object from the CURRENT `self._metric`; `__enter__` returns `self` (what `as t` binds)."""
+    f = find_func(tree, 'labels', 'Timer')
+    a = f.args
+    if [x.arg for x in a.posonlyargs + a.args] != ['self'] or a.vararg is None or a.kwarg is None or a.kwonlyargs or a.defaults:
+        raise Fail('Timer.labels: signature is not (self, *args, **kw)')
+    body = _no_doc(f)
+    if len(body) != 1:
+        raise Fail('Timer.labels: body is not a single statement: %s' % '; '.join(ast.unparse(x) for x in body))
+    st = body[0]
+    if not (isinstance(st, ast.Assign) and len(st.targets) == 1):
+        raise Fail('Timer.labels: body is not an assignment (`self._metric = …` expected): %s' % ast.unparse(st))
+    if ast.unparse(st.targets[0]) != 'self._metric':
+        raise Fail('Timer.labels: assignment target is %s, not self._metric' % ast.unparse(st.targets[0]))
+    c = st.value
+    if not (isinstance(c, ast.Call) and ast.unparse(c.func) == 'self._metric.labels'):
+        raise Fail('Timer.labels: value does not delegate to self._metric.labels(…): %s' % ast.unparse(c))
+    fa = fk = False
+    for x in c.args:
+        if isinstance(x, ast.Starred) and isinstance(x.value, ast.Name) and x.value.id == a.vararg.arg and not fa: fa = True
+        else: raise Fail('Timer.labels: positional argument %s of the delegated call not understood' % ast.unparse(x))
+    for x in c.keywords:
+        if x.arg is None and isinstance(x.value, ast.Name) and x.value.id == a.kwarg.arg and not fk: fk = True
+        else: raise Fail('Timer.labels: keyword argument of the delegated call not understood: %s' % ast.unparse(c))
+    v['timerLabelsRebindsSelf'] = True
+    v['timerLabelsForwardsArgs'] = fa
+    v['timerLabelsForwardsKw'] = fk
+    v['timerLabelsReturnsNone'] = True      # the single statement is an assignment: falls off the end
+    init = find_func(tree, '__init__', 'Timer')
+    if [x.arg for x in init.args.args] != ['self', 'metric', 'callback_name']:
+        raise Fail('Timer.__init__(self, metric, callback_name) expected')
+    src = [ast.unparse(x) for x in _no_doc(init)]
+    if src != ['self._metric = metric', 'self._callback_name = callback_name']:
+        raise Fail('Timer.__init__ body: %s' % '; '.join(src))
+    v['timerInitStoresMetric'] = True
+    nt = _no_doc(find_func(tree, '_new_timer', 'Timer'))
+    if len(nt) != 1 or ast.unparse(nt[0]) != 'return self.__class__(self._metric, self._callback_name)':
+        raise Fail('_new_timer does not build a new Timer from the current self._metric / self._callback_name')
+    v['newTimerCopiesMetric'] = True
+    en = _no_doc(find_func(tree, '__enter__', 'Timer'))
+    rets = [x for x in ast.walk(find_func(tree, '__enter__', 'Timer')) if isinstance(x, ast.Return)]
+    if len(rets) != 1 or not isinstance(en[-1], ast.Return) or ast.unparse(en[-1]) != 'return self':
+        raise Fail('Timer.__enter__ does not end with its only `return self`')
+    v['timerEnterReturnsSelf'] = True
+    # nothing else in the class writes `_metric`
+    cls = [n for n in tree.body if isinstance(n, ast.ClassDef) and n.name == 'Timer'][0]
+    writers = set()
+    for fn in cls.body:
+        if isinstance(fn, ast.FunctionDef):
+            for n in ast.walk(fn):
+                tg = []
+                if isinstance(n, ast.Assign): tg = n.targets
+                elif isinstance(n, (ast.AugAssign, ast.AnnAssign)): tg = [n.target]
+                elif isinstance(n, ast.Delete): tg = n.targets
+                if any(ast.unparse(t) == 'self._metric' for t in tg): writers.add(fn.name)
+                if isinstance(n, ast.Call) and ast.unparse(n.func) in ('setattr', 'delattr') and len(n.args) >= 2 \
+                        and ast.unparse(n.args[0]) == 'self':
+                    writers.add(fn.name + ':setattr')
+    if writers != {'__init__', 'labels'}:
+        raise Fail('Timer._metric is written by %s (only __init__ and labels expected)' % sorted(writers))
 
 
 def inprogress(tree, v):
@@ -433,6 +509,7 @@ def generate(repo):
         except Fail as e:
             fails.append((name, str(e)))
     site('Timer', timer, SOURCES[0])
+    site('Timer.labels', timer_labels, SOURCES[0])
     site('InprogressTracker', inprogress, SOURCES[0])
     site('ExceptionCounter', exccounter, SOURCES[0])
     site('metrics.time/count_exceptions/track_inprogress', factories, SOURCES[1])
